@@ -6,7 +6,7 @@
 From Coq Require Import ZArith List Bool.
 From RP Require Sched.Model Sched.NodeMap Sched.Inv Sched.SchedProofs Sched.RunProofs
                Sched.LiveProofs Sched.CancelProofs Sched.ConsProofs Sched.CancelRunProofs.
-From RP Require Exec.Model Exec.Oracle Exec.Local Exec.Proj Exec.Proofs Exec.CancelProofs Exec.ExamProofs Exec.PollProofs Exec.HandlerProofs.
+From RP Require Exec.Model Exec.Oracle Exec.Local Exec.Proj Exec.Proofs Exec.CancelProofs Exec.ExamProofs Exec.PollProofs Exec.HandlerProofs Exec.KillProofs.
 Import ListNotations.
 
 Module SchedSide.
@@ -140,7 +140,7 @@ Proof. vm_compute. split; reflexivity. Qed.
 End SchedSide.
 
 Module ExecSide.
-Import RP.Exec.Model RP.Exec.Oracle RP.Exec.Local RP.Exec.Proj RP.Exec.Proofs RP.Exec.CancelProofs RP.Exec.ExamProofs RP.Exec.PollProofs RP.Exec.HandlerProofs.
+Import RP.Exec.Model RP.Exec.Oracle RP.Exec.Local RP.Exec.Proj RP.Exec.Proofs RP.Exec.CancelProofs RP.Exec.ExamProofs RP.Exec.PollProofs RP.Exec.HandlerProofs RP.Exec.KillProofs.
 
 (* a named task that is running: once cancel_task has found its process running
    and taken it over, it is never collected and never failed; at quiescence it
@@ -257,5 +257,51 @@ Theorem C08_handler_covers_clause_holds_in_model :
   forall sc sched s tr, run (init sc) sched = (s, tr) -> ok_handler_covers sc tr (quiescent s) = true.
 Proof. exact model_handler_covers. Qed.
 Print Assumptions C08_handler_covers_clause_holds_in_model.
+
+(* "its process is killed": in every run, of any length, the history of
+   recorded actions and the process table agree (the process of u runs iff it
+   was spawned and has neither exited nor been killed since); a signal of
+   LaunchMethod.cancel_task is answered "no such process" only when the process
+   does not run -- a running process is reached by the kill [ks_ok1]; and while
+   a kill attempt is under way the process does not end by itself, unless a
+   signal was delivered without effect (a process that outlives the kill) --
+   cancel_task does not sit in proc.wait() for the natural end of a process it
+   failed to signal [ks_ok2] *)
+Theorem C08_kill_reaches_running_process :
+  forall sc sched s tr u,
+    run (init sc) sched = (s, tr) ->
+    ks_ok1 (kst_of u (all_events tr)) = true /\ ks_ok2 (kst_of u (all_events tr)) = true /\
+    ks_run (kst_of u (all_events tr)) = is_running (world s u).
+Proof. exact kill_reaches_and_no_natural_wait. Qed.
+Print Assumptions C08_kill_reaches_running_process.
+
+Theorem C08_kill_clauses_hold_in_model :
+  forall sc sched s tr,
+    run (init sc) sched = (s, tr) ->
+    ok_kill_reaches (delivered sc) tr = true /\ ok_no_natural_wait (delivered sc) tr = true.
+Proof. exact model_kill_reaches. Qed.
+Print Assumptions C08_kill_clauses_hold_in_model.
+
+(* "and nothing else": no signal ever goes to the process group of the
+   executor, and the process of a task that no request names and that has no
+   run-time limit is never killed *)
+Theorem C08_no_signal_to_the_executor_group :
+  forall sc sched s tr,
+    run (init sc) sched = (s, tr) ->
+    existsb (fun e : event => let '(k, _, _) := e in Z.eqb k K_GSIG) (all_events tr) = false.
+Proof. exact no_group_signal. Qed.
+Print Assumptions C08_no_signal_to_the_executor_group.
+
+Theorem C08_bystander_never_killed :
+  forall sc sched s tr u,
+    NoDup (delivered sc) -> In u (delivered sc) -> mem u (named sc) = false -> has_limit sc u = false ->
+    run (init sc) sched = (s, tr) -> existsb (event_eqb (ev K_KILL u 1)) (all_events tr) = false.
+Proof. exact bystander_never_killed. Qed.
+Print Assumptions C08_bystander_never_killed.
+
+Theorem C08_not_signalled_clause_holds_in_model :
+  forall sc sched s tr, NoDup (delivered sc) -> run (init sc) sched = (s, tr) -> ok_not_signalled sc tr = true.
+Proof. exact model_not_signalled. Qed.
+Print Assumptions C08_not_signalled_clause_holds_in_model.
 
 End ExecSide.
